@@ -122,6 +122,21 @@ theorem two_pushes_serializable (env : Env) (hwf : env.WF) (hff : env.RestoreFau
       (runTwo env st a b sched).final :=
   two_pushes_aux env hwf hff st hst a b ha hb sched
 
+/-! ## What the proxy is told to manage (serial discipline of the delayed un-manage) -/
+
+/-- After an engine switch to a configuration with endpoints `new`, once the un-manage delay has elapsed
+    every endpoint of `new` is still managed, whatever earlier switches had scheduled for removal (their
+    serials were read when they were scheduled, and `new` was registered by a newer request). -/
+theorem reregistered_endpoints_survive (r : Registry) (h : r.WF) (prev new : List Path) (e : Path)
+    (he : e ∈ new) : e ∈ ((r.switch prev new).tick).managed :=
+  Registry.switch_then_tick r h prev new e he
+
+/-- A push that is rolled back AFTER it had switched engines (A → B, failure, restore, B → A): thirty
+    seconds later every endpoint of the restored configuration A is still handed to the engine. -/
+theorem rolled_back_push_keeps_endpoints (r : Registry) (h : r.WF) (a b : List Path) (e : Path)
+    (he : e ∈ a) : e ∈ (((r.switch a b).switch b a).tick).managed :=
+  Registry.switch_then_tick _ (Registry.switch_wf r h a b) b a e he
+
 /-! ## Rejections before the first write (no hypothesis on environment or state) -/
 
 /-- A request that stops in the method / decode / no-data / backup / parse phase changes neither the
@@ -264,6 +279,17 @@ example :
     (Step.restoreUnlink (.flow "a.yaml")).inRestore = false ∧
     (handle env wState req).status = 422 ∧ sameDisk (handle env wState req).disk wState.disk = true := by
   decide
+
+/-- `rolled_back_push_keeps_endpoints`, concretely: A = {a, b}, B = {b, c}; after the round trip and the
+    delay exactly A is managed (c, scheduled at the second switch, is gone; a, scheduled at the first, is
+    spared because the second switch registered it again). -/
+example :
+    let a : List Path := [.flow "a.yaml", .flow "b.yaml"]
+    let b : List Path := [.flow "b.yaml", .flow "c.yaml"]
+    let r := (Registry.empty.switch [] a)
+    r.WF ∧ (((r.switch a b).switch b a).tick).managed = [.flow "a.yaml", .flow "b.yaml"] ∧
+    ((r.switch a b).tick).managed = [.flow "b.yaml", .flow "c.yaml"] := by
+  exact ⟨Registry.switch_wf _ (fun _ hj => by cases hj) _ _, by decide, by decide⟩
 
 /-- Early rejections: bad base64 in the second item; backup read failing; GET (former F08e). -/
 example :
